@@ -118,7 +118,7 @@ fn c14_preflight_success() {
     std::mem::forget(res); std::mem::forget(req); std::mem::forget(p);
 }
 
-// @verif prop=C14 tier=thorough mem=40 timeout=2400 replay=none unwindset="=memcmp.0 :24" bounds="preflight OPTIONS, no configured allow-headers: the request's Access-Control-Request-Headers (`x-q`) are echoed; inner 501"
+// @verif prop=C14 tier=off mem=40 timeout=2400 replay=none unwindset="=memcmp.0 :24" bounds="preflight OPTIONS, no configured allow-headers: the request's Access-Control-Request-Headers (`x-q`) are echoed; inner 501"
 #[kani::proof]
 #[kani::stub(ohkami::util::unix_timestamp, stubs::unix_timestamp_zero)]
 #[kani::stub(core::str::from_utf8, stubs::from_utf8_model)]
